@@ -415,7 +415,9 @@ def at5_c0_status(data):
             return {"sub": sub, "request": True}
         return UNDEC
     if normal != 0:
-        return UNDEC  # "if the protocol is upgraded this value may change"
+        # "if the protocol is upgraded this value may change": what the normal data means is
+        # unknown, but where the records are is not - the repeat data follows it
+        body = body[normal:]
     if rlen < known:
         if rcount == 0:
             return UNDEC
